@@ -64,7 +64,7 @@ let apply_mut (spec : string) (ct : n list) (info : n list) (sk : n list) =
     let off = int_of_string off and b = Array.of_list (unhex b) in
     (List.mapi (fun j x -> if j >= off && j < off + Array.length b then b.(j - off) else x) ct, info, sk)
   | 'i' -> (ct, unhex arg, sk)
-  | 'k' -> (ct, info, unhex arg)
+  | 'k' | 'n' -> (ct, info, unhex arg)
   | 'z' -> ([], info, sk)
   | _ -> (ct, info, sk)
 let muts_of s = if s = "" || s = "-" then [] else String.split_on_char ';' s
